@@ -5,7 +5,7 @@ import ast
 
 from sa.astx import NotConst, body_walk, call_attr, call_name, const_eval, dotted, lincmp, src, walk_local
 from sa.selftest import Mutant, Silent
-from sa.source import methods
+from sa.source import AnalysisError, methods
 from sa.props._lib_j import (asserted_eq, asserted_is, bind_args, catching_handler, edge_asserts, funcs_in_class, is_self_attr,
                              local_defs, no_exc, node_calls, body_always_entered, leaf_values, normalise, run_sections, normal_exits, params, resolve, rsrc)
 
@@ -19,6 +19,8 @@ CONV = "_threads/_convenience.py"
 QT = "twisted._threads._team.Team"
 TECHNIQUE = "ownership fixpoint over call graph, CFG must-pass/dominance, queue-end operation kinds"
 EXPLANATION = (
+    "Decides (workers, exactly once on the error path): an item that is called has left its queue before the call - taken by a removing read, or a removal "
+    "from the same queue precedes the call on every path (createMemoryWorker.perform, the ThreadWorker thread loop). "
     "Decides: (a) every read/write of Team._idle/_busyCount/_pending/_toShrink/_shouldQuitCoordinator and every call of "
     "_createWorker happens in a function that runs on the coordinator (lambda / decorated def handed to self._coordinator.do, "
     "or a private method whose call sites are - as a greatest fixpoint - all such functions); statistics() may only read; "
@@ -535,9 +537,67 @@ def _s_workers(ctx, S):
                     "MemoryWorker.quit appends NoMoreWork before rejecting new work")
     fp = ctx.func(MEM, "createMemoryWorker.perform")
     ends = [_pop_end(c) for c in ast.walk(fp) if isinstance(c, ast.Call) and call_attr(c) in ("pop", "popleft")]
-    peeks = [src(s.slice) for s in ast.walk(fp) if isinstance(s, ast.Subscript) and "_pending" in rsrc(s.value, fp)]
+    dels = [t for d in ast.walk(fp) if isinstance(d, ast.Delete) for t in d.targets if isinstance(t, ast.Subscript) and "_pending" in rsrc(t.value, fp)]
+    for t in dels:      # `del <queue>[0]` removes the first element like pop(0)
+        try:
+            v_ = const_eval(t.slice) if not isinstance(t.slice, ast.Slice) else None
+        except NotConst:
+            v_ = None
+        ends.append("first" if v_ == 0 else ("last" if v_ == -1 else None))
+    peeks = [src(s.slice) for s in ast.walk(fp) if isinstance(s, ast.Subscript) and "_pending" in rsrc(s.value, fp) and not any(s is t for t in dels)]
     ctx.check(ends == ["first"] and peeks in (["0"], []), "fifo/memory-worker", "twisted._threads._memory.createMemoryWorker.perform",
               "MemoryWorker performs work from the wrong end of its queue (or peeks at another element than it pops)")
+    _removed_before_called(ctx, fp, "twisted._threads._memory.createMemoryWorker.perform")
+    _removed_before_called(ctx, ctx.func(TW, "ThreadWorker.__init__"), "twisted._threads._threadworker.ThreadWorker.__init__.work")
+
+
+def _removed_before_called(ctx, func, q):
+    """Exactly once on the error path: an item that is called has left its queue before the call, so a call-out that raises cannot leave it at the head to be
+    run again.  Read by role in ``func`` (nested worker functions included): the items are the names that are CALLED and whose values come out of a queue -
+    by a removing read (<q>.pop(..) / popleft() / get() / the variable of ``for .. in iter(<q>.get, ..)``: removed by construction) or by a peek (<q>[<const>]):
+    then a removal from the same queue has to precede the call on every path."""
+    judged = 0
+    scopes = [func] + [d for d in ast.walk(func) if isinstance(d, (ast.FunctionDef, ast.AsyncFunctionDef)) and d is not func]
+    for fn in scopes:
+        g = ctx.cfg(fn)
+        loopvars = {}
+        for lp in walk_local(fn):
+            if isinstance(lp, ast.For) and isinstance(lp.target, ast.Name):
+                loopvars[lp.target.id] = lp.iter
+        for n, c in node_calls(g, lambda c: isinstance(c.func, ast.Call) and isinstance(c.func.func, ast.Attribute) and c.func.func.attr in ("pop", "popleft", "get", "get_nowait")
+                               and not c.args and not c.keywords):
+            judged += 1         # <queue>.pop(0)(): what is called is the result of the removing read itself
+            ctx.ok("task/removed-before-called", ctx.construct(q, f"{src(c.func)}()"), detail="item taken by a removing read")
+        for n, c in node_calls(g, lambda c: isinstance(c.func, ast.Name) and not c.args and not c.keywords):
+            name = c.func.id
+            if name in loopvars:
+                it = loopvars[name]
+                if isinstance(it, ast.Call) and len(it.args) == 2 and not it.keywords and isinstance(it.args[0], ast.Attribute) and it.args[0].attr in ("get", "get_nowait", "popleft", "pop"):
+                    judged += 1
+                    ctx.ok("task/removed-before-called", ctx.construct(q, f"{name}()"), detail="item taken by a removing read (iter(<queue>.get, <sentinel>))")
+                continue
+            leaves = [v for v, _, _ in leaf_values(fn, c.func)]
+            if not leaves or any(isinstance(v, ast.Name) for v in leaves):
+                continue            # a parameter / closure variable: not an item this function takes out of a queue
+            removing = [v for v in leaves if isinstance(v, ast.Call) and isinstance(v.func, ast.Attribute) and v.func.attr in ("pop", "popleft", "get", "get_nowait")]
+            peeks = [v for v in leaves if isinstance(v, ast.Subscript) and not isinstance(v.slice, ast.Slice)]
+            if len(removing) + len(peeks) != len(leaves):
+                continue
+            judged += 1
+            if not peeks:
+                ctx.ok("task/removed-before-called", ctx.construct(q, f"{name}()"), detail="item taken by a removing read")
+                continue
+            for pk in peeks:
+                qexpr = rsrc(pk.value, fn)
+                rem = [x for x, rc in node_calls(g, lambda rc: isinstance(rc.func, ast.Attribute) and rc.func.attr in ("pop", "popleft", "remove", "clear") and rsrc(rc.func.value, fn) == qexpr)]
+                rem += [x.id for x in g.nodes if x.kind == "stmt" and isinstance(x.ast, ast.Delete) and g.reachable(x.id) and
+                        any(isinstance(t, ast.Subscript) and rsrc(t.value, fn) == qexpr for t in x.ast.targets)]
+                w = g.must_precede(rem, [n]) if rem else g.path([g.entry], [n])
+                ctx.check(bool(rem) and w is None, "task/removed-before-called", ctx.construct(q, f"{name}()"),
+                          f"the item {src(pk)} is called while it is still in {qexpr} (the removal does not precede the call on every path): if the call raises, the item "
+                          f"stays at the head of the queue - every later step runs the same task again and nothing behind it ever runs", witness=g.describe(w))
+    if not judged:
+        raise AnalysisError(f"{q}: no call of an item taken out of a queue recognised")
 
 
 def _s_lockworker(ctx, S):
@@ -855,6 +915,11 @@ MUTANTS = [
     # ---- round-3 shapes: the idle pop written EAFP; the task closure and its completion closure built by a private factory as siblings
     Mutant("eafp-pop-forgets-the-deferred-shrink", TEAM, '            if self._idle:\n                self._idle.pop().quit()\n            else:\n                self._toShrink += 1\n', '            try:\n                spare = self._idle.pop()\n            except KeyError:\n                pass\n            else:\n                spare.quit()\n'),
     Mutant("factory-built-job-recycles-on-the-worker-thread", TEAM, '        not_none_worker = worker\n        self._busyCount += 1\n\n        @worker.do\n        def doWork() -> None:\n            try:\n                task()\n            except BaseException:\n                self._logException()\n\n            @self._coordinator.do\n            def idleAndPending() -> None:\n                self._busyCount -= 1\n                self._recycleWorker(not_none_worker)\n', '        self._busyCount += 1\n        worker.do(self._jobFor(worker, task))\n\n    def _jobFor(self, worker, task):\n        def backToThePool() -> None:\n            self._busyCount -= 1\n            self._recycleWorker(worker)\n\n        def job() -> None:\n            try:\n                task()\n            except BaseException:\n                self._logException()\n            backToThePool()\n        return job\n'),
+    # ---- round-4: the item leaves the queue before it is called
+    Mutant("memory-worker-dequeues-in-a-finally-after-the-call", MEM, '        worker._pending.pop(0)\n        peek()\n', "        try:\n            peek()\n        finally:\n            worker._pending.pop(0)\n",
+           expect_rule="task/removed-before-called"),
+    Mutant("memory-worker-dequeues-only-when-the-task-returned-normally", MEM, '        worker._pending.pop(0)\n        peek()\n',
+           "        try:\n            peek()\n        except BaseException:\n            raise\n        else:\n            del worker._pending[0]\n", expect_rule="task/removed-before-called"),
 ]
 SILENT = [
     Silent("lambda-instead-of-decorator", TEAM,
@@ -886,4 +951,6 @@ SILENT = [
     Silent("thread-loop-reflected-sentinel-test", TW, "            for task in smartiter(queue.get, StopThread):\n                task()\n", "            while True:\n                job = queue.get()\n                if StopThread == job:\n                    break\n                job()\n"),
     Silent("idle-pop-written-eafp", TEAM, '            if self._idle:\n                self._idle.pop().quit()\n            else:\n                self._toShrink += 1\n', '            try:\n                spare = self._idle.pop()\n            except KeyError:\n                self._toShrink += 1\n            else:\n                spare.quit()\n'),
     Silent("job-and-completion-closures-built-by-a-private-factory", TEAM, '        not_none_worker = worker\n        self._busyCount += 1\n\n        @worker.do\n        def doWork() -> None:\n            try:\n                task()\n            except BaseException:\n                self._logException()\n\n            @self._coordinator.do\n            def idleAndPending() -> None:\n                self._busyCount -= 1\n                self._recycleWorker(not_none_worker)\n', '        self._busyCount += 1\n        worker.do(self._jobFor(worker, task))\n\n    def _jobFor(self, worker, task):\n        def backToThePool() -> None:\n            self._busyCount -= 1\n            self._recycleWorker(worker)\n\n        def job() -> None:\n            try:\n                task()\n            except BaseException:\n                self._logException()\n            self._coordinator.do(backToThePool)\n        return job\n'),
+    Silent("memory-worker-calls-the-popped-item", MEM, '        worker._pending.pop(0)\n        peek()\n', "        job = worker._pending.pop(0)\n        job()\n"),
+    Silent("memory-worker-deletes-the-head-then-calls", MEM, '        worker._pending.pop(0)\n        peek()\n', "        del worker._pending[0]\n        peek()\n"),
 ]
